@@ -13,6 +13,13 @@ Three layers:
    model's hand-written event order for a representative input is the order the source has today.
 
 Nothing here is generated; nothing here is trusted beyond the tool's classification of calls (DESIGN.md §3.1).
+
+The table is RENAME-STABLE (tools/orderfacts/main.go, canon.go): callees are classified by go/types identities; condition
+texts are canonical (`errNonNil` whatever the variable is called, `nonNil(<field path>)`, `isSentinel(io.EOF)`, field paths
+rooted at the TYPE of the receiver: `simpledb.DB.closed`; locals by their defining expression or their type `‹T›`); loops
+name the iterated value by type / field path; control flow is in a normal form (guards for early exits, two-armed
+conditionals in a preferred polarity, helpers inlined).  The expectations below quote those canonical texts; where a
+statement is not ABOUT a particular field it uses `coarse` (error / nil-check / other) instead of the full text.
 Core Lean only.
 -/
 import SST.Generated.Order
@@ -197,6 +204,56 @@ def condsAround (l : Label) : List String → List Item → List (List String)
   | st, .act a :: xs => (if a == l then [st] else []) ++ condsAround l st xs
   | st, _ :: xs => condsAround l st xs
 
+/-- an item after which control has left the enclosing block -/
+def isExit : Item → Bool
+  | .ret | .brk | .cont => true
+  | .act .panicLog => true
+  | _ => false
+
+/-- a GUARD: a conditional without else whose block always leaves (tools/orderfacts writes every early exit this way:
+`ifBegin c … <exit> ifEnd`, the other alternative following at the same level) -/
+def isGuardBody (body : List Item) : Bool :=
+  (splitElse 0 body).1.length == body.length &&
+    (match body.getLast? with | some x => isExit x | none => false)
+
+/-- one open conditional: its condition, whether it is a guard, what is known inside it so far (latest first) -/
+structure Frame where
+  cond : String
+  guard : Bool
+  known : List String
+
+/-- for every occurrence of `l`: everything known to hold when it is reached — the conditions of the conditionals around it
+(`"else: c"` in an else branch) AND, as `"not: c"`, the conditions of the guards passed before it in the enclosing blocks;
+innermost / latest first.  (Loops, callbacks, defers, scopes are transparent; start with one base frame.) -/
+def pathCondsAux (l : Label) : List Frame → List Item → List (List String)
+  | _, [] => []
+  | st, .ifBegin c :: xs =>
+    pathCondsAux l (⟨c, isGuardBody (splitBlock 0 xs).1, [c]⟩ :: st) xs
+  | st, .elseBegin :: xs =>
+    pathCondsAux l (match st with | f :: r => { f with known := ["else: " ++ f.cond] } :: r | [] => []) xs
+  | st, .ifEnd :: xs =>
+    match st with
+    | f :: g :: r => pathCondsAux l ((if f.guard then { g with known := ("not: " ++ f.cond) :: g.known } else g) :: r) xs
+    | _ => pathCondsAux l st xs
+  | st, .act a :: xs => (if a == l then [(st.map (·.known)).flatten] else []) ++ pathCondsAux l st xs
+  | st, _ :: xs => pathCondsAux l st xs
+
+def pathConds (l : Label) (xs : List Item) : List (List String) := pathCondsAux l [⟨"", false, []⟩] xs
+
+/-- a condition text without the names it mentions: error test / nil check / sentinel test / anything else ("_") -/
+def coarseCore (c : String) : String :=
+  if c == "errNonNil" || c == "errNil" then c
+  else if c.startsWith "nonNil(" then "nonNil"
+  else if c.startsWith "isNil(" then "isNil"
+  else if c.startsWith "isSentinel(" || c.startsWith "notSentinel(" then c
+  else "_"
+
+/-- … keeping the `else: ` / `not: ` prefix of `condsAround` / `pathConds` -/
+def coarse (c : String) : String :=
+  if c.startsWith "else: " then "else: " ++ coarseCore (String.ofList (c.toList.drop 6))
+  else if c.startsWith "not: " then "not: " ++ coarseCore (String.ofList (c.toList.drop 5))
+  else coarseCore c
+
 /-! ## a representative execution
 
 `trace cfg f` executes listed function `f`: conditions are decided by `cfg.dec` (function, condition text, iteration
@@ -214,15 +271,27 @@ structure Cfg where
   reps : List (String × String × Nat)
   callee : List (Label × String)
 
+/-- Spellings that files which are NOT restated together with the translator still use for conditions / loop values
+(Props/C02_Sessions.lean quotes the source text of before the normalisation), and the canonical text they stand for.
+Only the lookup keys of a `Cfg` are translated; the regenerated table contains canonical texts only. -/
+def legacyKey : String → String
+  | "!db.open" => "!simpledb.DB.open"
+  | "db.closed" => "simpledb.DB.closed"
+  | "db.enableCompactions" => "simpledb.DB.enableCompactions"
+  | "walPath != \"\"" => "simpledb.memStoreFlushAction.walPath != \"\""
+  | "err != nil" => "errNonNil"
+  | "db.storeFlushChannel" => "simpledb.DB.storeFlushChannel"
+  | s => s
+
 def Cfg.decide (c : Cfg) (fn cond : String) (it : Nat) : Option Bool :=
-  match c.dec.find? (fun e => e.1 == fn && e.2.1 == cond) with
+  match c.dec.find? (fun e => e.1 == fn && (e.2.1 == cond || legacyKey e.2.1 == cond)) with
   | some e => match e.2.2[it]? with
     | some b => some b
     | none => e.2.2.getLast?
   | none => none
 
 def Cfg.iterations (c : Cfg) (fn over : String) : Option Nat :=
-  (c.reps.find? (fun e => e.1 == fn && e.2.1 == over)).map (·.2.2)
+  (c.reps.find? (fun e => e.1 == fn && (e.2.1 == over || legacyKey e.2.1 == over))).map (·.2.2)
 
 def Cfg.inline (c : Cfg) (l : Label) : Option String := (c.callee.find? (fun e => e.1 == l)).map (·.2)
 
@@ -427,103 +496,105 @@ def callees : List (Label × String) := [
 /-- decisions shared by the paths: the table writer, the memstore flush, the WAL appender and the record writer on a
 successful run with a bloom filter, a compressor, one record, no size-triggered WAL rotation -/
 def commonDec : List (String × String × List Bool) := [
-  ("SSTableStreamWriter.Open", "writer.opts.enableBloomFilter", [true]),
-  -- 3b4867f: the deferred cleanup of `Open` returns at once when `Open` succeeded; `Close` of a writer whose `Open`
+  ("SSTableStreamWriter.Open", "sstables.SSTableStreamWriter.opts.enableBloomFilter", [true]),
+  -- 3b4867f: the deferred cleanup of `Open` does something only when `Open` failed; `Close` of a writer whose `Open`
   -- succeeded finds both record writers
-  ("SSTableStreamWriter.Open", "err == nil", [true]),
-  ("SSTableStreamWriter.Close", "writer.indexWriter != nil", [true]),
-  ("SSTableStreamWriter.Close", "writer.dataWriter != nil", [true]),
-  ("SSTableStreamWriter.WriteNext", "writer.lastKey != nil", [false]),
-  ("SSTableStreamWriter.WriteNext", "writer.metaData == nil", [false]),
-  ("SSTableStreamWriter.WriteNext", "writer.opts.enableBloomFilter", [true]),
-  ("SSTableStreamWriter.WriteNext", "err != nil", [false]),
-  ("SSTableStreamWriter.Close", "writer.opts.enableBloomFilter && writer.bloomFilter != nil", [true]),
-  ("SSTableStreamWriter.Close", "writer.metaData != nil && writer.metaDataFile != nil", [true]),
-  ("memstore.flushMemstore", "errors.Is(err, skiplist.Done)", [false, true]),
-  ("memstore.flushMemstore", "includeTombstones", [true]),
-  ("simpledb.executeFlush", "memStoreToFlush.Size() == 0", [false]),
-  ("wal.checkSizeAndRotate", "(a.currentWriter.Size() + uint64(nextRecordSize)) > a.walOptions.maxWalFileSize", [false]),
-  ("wal.setupNextWriter", "a.nextWriterNumber >= 1000000", [false]),
+  ("SSTableStreamWriter.Open", "errNonNil", [false]),
+  ("SSTableStreamWriter.Close", "nonNil(sstables.SSTableStreamWriter.indexWriter)", [true]),
+  ("SSTableStreamWriter.Close", "nonNil(sstables.SSTableStreamWriter.dataWriter)", [true]),
+  ("SSTableStreamWriter.WriteNext", "nonNil(sstables.SSTableStreamWriter.lastKey)", [false]),
+  ("SSTableStreamWriter.WriteNext", "isNil(sstables.SSTableStreamWriter.metaData)", [false]),
+  ("SSTableStreamWriter.WriteNext", "sstables.SSTableStreamWriter.opts.enableBloomFilter", [true]),
+  ("SSTableStreamWriter.WriteNext", "errNonNil", [false]),
+  ("SSTableStreamWriter.Close", "sstables.SSTableStreamWriter.opts.enableBloomFilter && nonNil(sstables.SSTableStreamWriter.bloomFilter)", [true]),
+  ("SSTableStreamWriter.Close", "nonNil(sstables.SSTableStreamWriter.metaData) && nonNil(sstables.SSTableStreamWriter.metaDataFile)", [true]),
+  ("memstore.flushMemstore", "isSentinel(skiplist.Done)", [false, true]),
+  ("memstore.flushMemstore", "‹bool›", [true]),                    -- includeTombstones
+  ("simpledb.executeFlush", "memstore.MemStoreI.Size() != 0", [true]),
+  ("wal.checkSizeAndRotate", "wal.Appender.walOptions.maxWalFileSize < (wal.Appender.currentWriter.Size() + uint64(‹int›))", [false]),
+  ("wal.setupNextWriter", "wal.Appender.nextWriterNumber >= 1000000", [false]),
   -- a9ebc7d: the new WAL file writer opens (its close-again branch is the error path)
-  ("wal.setupNextWriter", "err != nil", [false]),
-  ("FileWriter.WriteSync", "w.alignedBlockWrites", [false]),
-  ("FileWriter.Write", "!w.open || w.closed", [false]),
-  ("FileWriter.Write", "w.compressor != nil", [true]),
-  ("FileWriter.Write", "record == nil", [false]),
-  ("FileWriter.Write", "recordBytesWritten != len(recordToWrite)", [false])]
+  ("wal.setupNextWriter", "errNonNil", [false]),
+  ("FileWriter.WriteSync", "recordio.FileWriter.alignedBlockWrites", [false]),
+  ("FileWriter.Write", "!recordio.FileWriter.open || recordio.FileWriter.closed", [false]),
+  ("FileWriter.Write", "nonNil(recordio.FileWriter.compressor)", [true]),
+  ("FileWriter.Write", "isNil(‹[]byte›)", [false]),                -- record == nil
+  ("FileWriter.Write", "recordio.FileWriter.bufWriter.Write(‹[]byte›)#0 == len(‹[]byte›)", [true])]
 
 /-- the memstore iteration: one entry, then `Done` -/
 def commonReps : List (String × String × Nat) := [("memstore.flushMemstore", "", 2)]
 
 /-- the flusher takes a one-entry store that came with the path of a WAL file -/
 def cfgFlush : Cfg := {
-  dec := ("simpledb.executeFlush", "walPath != \"\"", [true]) :: commonDec
+  dec := ("simpledb.executeFlush", "simpledb.memStoreFlushAction.walPath != \"\"", [true]) :: commonDec
   reps := commonReps
   callee := callees }
 
-/-- an accepted `PutBytes` with the synchronous WAL whose size estimate then exceeds the limit -/
+/-- an accepted `PutBytes` with the synchronous WAL whose size estimate then exceeds the limit (the guard "within the
+limit → return" is not taken) -/
 def cfgPut : Cfg := {
-  dec := [("DB.PutBytes", "!db.open", [false]), ("DB.PutBytes", "db.closed", [false]),
-          ("DB.PutBytes", "db.enableAsyncWAL", [false]),
-          ("DB.PutBytes", "db.memStore.EstimatedSizeInBytes() > db.memstoreMaxSize", [true])] ++ commonDec
+  dec := [("DB.PutBytes", "!simpledb.DB.open", [false]), ("DB.PutBytes", "simpledb.DB.closed", [false]),
+          ("DB.PutBytes", "simpledb.DB.enableAsyncWAL", [false]),
+          ("DB.PutBytes", "simpledb.DB.memstoreMaxSize >= simpledb.DB.memStore.EstimatedSizeInBytes()", [false])] ++ commonDec
   reps := commonReps
   callee := callees }
 
 /-- an accepted `DeleteBytes` with the synchronous WAL -/
 def cfgDelete : Cfg := {
-  dec := [("DB.DeleteBytes", "!db.open", [false]), ("DB.DeleteBytes", "db.closed", [false]),
-          ("DB.DeleteBytes", "db.enableAsyncWAL", [false])] ++ commonDec
+  dec := [("DB.DeleteBytes", "!simpledb.DB.open", [false]), ("DB.DeleteBytes", "simpledb.DB.closed", [false]),
+          ("DB.DeleteBytes", "simpledb.DB.enableAsyncWAL", [false])] ++ commonDec
   reps := commonReps
   callee := callees }
 
 /-- `Close` of an open database with a non-empty write store, compactions disabled -/
 def cfgClose : Cfg := {
-  dec := [("DB.Close", "!db.open", [false]), ("DB.Close", "db.closed", [false]), ("DB.Close", "db.enableCompactions", [false]),
-          ("simpledb.executeFlush", "walPath != \"\"", [true])] ++ commonDec
+  dec := [("DB.Close", "!simpledb.DB.open", [false]), ("DB.Close", "simpledb.DB.closed", [false]),
+          ("DB.Close", "simpledb.DB.enableCompactions", [false]),
+          ("simpledb.executeFlush", "simpledb.memStoreFlushAction.walPath != \"\"", [true])] ++ commonDec
   reps := commonReps
   callee := callees }
 
 /-- one compaction cycle (`backgroundCompaction`: one tick) that merges two tables and reflects the result -/
 def cfgCompact : Cfg := {
-  dec := [("simpledb.backgroundCompaction", "!db.enableCompactions", [false]),
-          ("simpledb.backgroundCompaction", "case <-db.compactionTickerStopChannel", [false]),
-          ("simpledb.backgroundCompaction", "case <-db.compactionTicker.C", [true]),
-          ("simpledb.backgroundCompaction", "metadata == nil", [false]),
-          ("simpledb.backgroundCompaction", "err != nil", [false]),
-          ("simpledb.executeCompaction", "len(paths) == 0 || len(paths) <= db.compactionFileThreshold", [false]),
-          ("simpledb.executeCompaction", "!writerClosed", [false]),
-          ("SSTableManager.reflectCompactionResult", "i >= 0", [true]),
-          ("SSTableManager.reflectCompactionResult", "i < 0", [false]),
-          ("SSTableManager.reflectCompactionResult", "p != m.ReplacementPath", [false, true]),
-          ("SSTableManager.reflectCompactionResult", "readerIndex < 0", [false])] ++ commonDec
-  reps := [("simpledb.backgroundCompaction", "", 1), ("simpledb.executeCompaction", "paths", 2),
-           ("simpledb.executeCompaction", "readers", 2), ("SSTableManager.reflectCompactionResult", "m.SstablePaths", 2)] ++ commonReps
+  dec := [("simpledb.backgroundCompaction", "simpledb.DB.enableCompactions", [true]),
+          ("simpledb.backgroundCompaction", "case <-simpledb.DB.compactionTickerStopChannel", [false]),
+          ("simpledb.backgroundCompaction", "case <-simpledb.DB.compactionTicker.C", [true]),
+          ("simpledb.backgroundCompaction", "isNil(simpledb.executeCompaction(‹*simpledb.DB›)#0)", [false]),
+          ("simpledb.backgroundCompaction", "errNonNil", [false]),
+          ("simpledb.executeCompaction", "len(simpledb.compactionAction.pathsToCompact) == 0 || simpledb.DB.compactionFileThreshold >= len(simpledb.compactionAction.pathsToCompact)", [false]),
+          ("simpledb.executeCompaction", "!‹bool›", [false]),      -- !writerClosed, in the deferred fall-back
+          ("SSTableManager.reflectCompactionResult", "simpledb.indexOfReader(simpledb.SSTableManager.allSSTableReaders, elem(simpledb/proto.CompactionMetadata.SstablePaths)) >= 0", [true]),
+          ("SSTableManager.reflectCompactionResult", "simpledb.indexOfReader(simpledb.SSTableManager.allSSTableReaders, simpledb/proto.CompactionMetadata.ReplacementPath) < 0", [false]),
+          ("SSTableManager.reflectCompactionResult", "elem(simpledb/proto.CompactionMetadata.SstablePaths) != simpledb/proto.CompactionMetadata.ReplacementPath", [false, true]),
+          ("SSTableManager.reflectCompactionResult", "simpledb.indexOfReader(simpledb.SSTableManager.allSSTableReaders, elem(simpledb/proto.CompactionMetadata.SstablePaths)) < 0", [false])] ++ commonDec
+  reps := [("simpledb.backgroundCompaction", "", 1), ("simpledb.executeCompaction", "‹[]string›", 2),
+           ("simpledb.executeCompaction", "‹[]sstables.SSTableReaderI›", 2),
+           ("SSTableManager.reflectCompactionResult", "simpledb/proto.CompactionMetadata.SstablePaths", 2)] ++ commonReps
   callee := callees }
 
 /-- `Open` on a directory with: an unflagged compaction directory; a flagged one for tables 1 and 2 (replacement 1);
 an unfinished table 3 (empty metadata file); two WAL files, the first with a record (`withWal`), or nothing at all -/
 def cfgOpen (withWal : Bool) : Cfg := {
-  dec := [("DB.Open", "db.open", [false]), ("DB.Open", "db.enableCompactions", [false]),
+  dec := [("DB.Open", "simpledb.DB.open", [false]), ("DB.Open", "simpledb.DB.enableCompactions", [false]),
           -- edfc7e7: the deferred give-back of the loaded tables runs only when `Open` fails
-          ("DB.Open", "err != nil", [false]),
-          ("DB.repairCompactions", "info.IsDir() && strings.HasPrefix(info.Name(), SSTableCompactionPathPrefix)", [true]),
-          ("DB.repairCompactions", "sstablePath != meta.ReplacementPath", [false, true]),
-          ("DB.reconstructSSTables", "info.IsDir() && strings.HasPrefix(info.Name(), SSTablePrefix)", [true]),
-          ("DB.reconstructSSTables", "len(db.sstableManager.allSSTableReaders) != 0", [false]),
-          ("DB.reconstructSSTables", "len(tablePaths) > 0", [withWal]),
-          ("DB.reconstructSSTables", "hasEmptyMetadata(p)", [false, true]),
-          ("DB.reconstructSSTables", "err != nil", [false]),
-          ("simpledb.removeUnfinishedTable", "err != nil && !os.IsNotExist(err)", [false]),
-          ("DB.replayAndSetupWriteAheadLog", "db.enableDirectIOWAL", [false]),
-          ("DB.replayAndSetupWriteAheadLog", "numRecords != 0", [withWal]),
-          ("simpledb.executeFlush", "walPath != \"\"", [false])] ++ commonDec
+          ("DB.Open", "errNonNil", [false]),
+          ("DB.repairCompactions", "io/fs.FileInfo.IsDir() && strings.HasPrefix(io/fs.FileInfo.Name(), simpledb.SSTableCompactionPathPrefix)", [true]),
+          ("DB.repairCompactions", "elem(simpledb/proto.CompactionMetadata.SstablePaths) != simpledb/proto.CompactionMetadata.ReplacementPath", [false, true]),
+          ("DB.reconstructSSTables", "len(simpledb.DB.sstableManager.allSSTableReaders) != 0", [false]),
+          ("DB.reconstructSSTables", "len(‹[]string›) > 0", [withWal]),
+          ("DB.reconstructSSTables", "simpledb.hasEmptyMetadata(elem(‹[]string›))", [false, true]),
+          ("DB.reconstructSSTables", "errNonNil", [false]),
+          ("simpledb.removeUnfinishedTable", "errNonNil && !os.IsNotExist(‹error›)", [false]),
+          ("DB.replayAndSetupWriteAheadLog", "simpledb.DB.enableDirectIOWAL", [false]),
+          ("DB.replayAndSetupWriteAheadLog", "‹int› != 0", [withWal]),   -- numRecords != 0
+          ("simpledb.executeFlush", "simpledb.memStoreFlushAction.walPath != \"\"", [false])] ++ commonDec
   reps := [("DB.repairCompactions", "callback", 1), ("DB.reconstructSSTables", "callback", 1),
            ("DB.replayAndSetupWriteAheadLog", "callback", 0),
-           ("DB.repairCompactions", "compactionsToDelete", if withWal then 1 else 0),
-           ("DB.repairCompactions", "compactionsToFinish", if withWal then 1 else 0),
-           ("DB.repairCompactions", "meta.SstablePaths", 2),
-           ("DB.reconstructSSTables", "tablePaths", 2),
-           ("DB.replayAndSetupWriteAheadLog", "walFileNames", if withWal then 2 else 0)] ++ commonReps
+           ("DB.repairCompactions", "‹[]string›", if withWal then 1 else 0),                             -- compactionsToDelete
+           ("DB.repairCompactions", "‹[]*simpledb/proto.CompactionMetadata›", if withWal then 1 else 0), -- compactionsToFinish
+           ("DB.repairCompactions", "simpledb/proto.CompactionMetadata.SstablePaths", 2),
+           ("DB.reconstructSSTables", "‹[]string›", 2),                                                   -- tablePaths
+           ("DB.replayAndSetupWriteAheadLog", "‹[]string›", if withWal then 2 else 0)] ++ commonReps        -- walFileNames
   callee := callees }
 
 /-! ## the representative inputs of the model -/
